@@ -7,6 +7,7 @@ git diff > /tmp/_pending.diff
 if ! git apply --check "$p" 2>/dev/null; then echo "PATCH DOES NOT APPLY CLEANLY on the current tree: $p"; git apply --check "$p"; exit 8; fi
 git apply "$p"
 cd /verif
+export VERIF_EVIDENCE_DIR=/tmp/seeded_evidence
 for c in "$@"; do
   ./vcheck $c --tier ${TIER:-quick} 2>&1 | grep -E "^VIOLATION|^\[C|HARNESS|^KNOWN|fingerprint" | cut -c1-260 | head -${LINES_MAX:-8}
 done
